@@ -35,13 +35,17 @@ struct C11 : Scenario {
         Cfg c = swarm_cfg(r, o);
         c.outstep = 1; c.saveps = 1; c.verbose = false;
         c.renorm = r.pick(std::vector<long>{-1, -1, -1, 0, 0, 2, 3, 5});
+        // "impedances below threshold" (the property's proviso) matters where equivalence holds only within rounding: an unstable
+        // beam amplifies the 1e-7 rounding of the start's renormalisation (thorough tier: 1.3e-5 after 19 steps at 3 mA).
+        // Bit-exact cases (no renormalisation) keep the strong wakes.
+        if (c.renorm >= 0) for (auto& cur : c.currents) cur = std::round(cur * 0.1 * 1e7) / 1e7;
         c.to_plan(p);
         p.setu("entropy", r.u64());
         p.seti("planner", 0);
         p.setu("sseed", r.u64());
         p.set("splits", "");   // all
         // start-file faults tried in this run
-        std::vector<std::string> kinds = {"missing", "empty", "trunc", "garbage", "nops", "multibunch", "eio", "short", "gridsize", "norecords", "notfloat"};
+        std::vector<std::string> kinds = {"missing", "empty", "trunc", "garbage", "nops", "multibunch", "eio", "short", "gridsize", "norecords", "notfloat", "eacces"};
         std::string f;
         long nf = r.range(2, 4);
         for (long i = 0; i < nf; i++) { if (i) f += ","; f += r.pick(kinds) + ":" + std::to_string(r.range(0, 100000)); }
@@ -220,6 +224,7 @@ struct C11 : Scenario {
         else if (kind == "notfloat") h5_write_f32(start, "/PhaseSpace/data", {(unsigned long long)x.cfg.grid, (unsigned long long)x.cfg.grid}, std::vector<float>((size_t)(x.cfg.grid * x.cfg.grid), 1.f));
         else if (kind == "multibunch" || kind == "gridsize") write_file(start, src);
         else if (kind == "eio") { write_file(start, src); l.rt.fault_path = "start.h5"; l.rt.fault_kind = 2; l.rt.fault_nth = arg % 6; }
+        else if (kind == "eacces") { write_file(start, src); l.rt.fault_path = "start.h5"; l.rt.fault_kind = 1; l.rt.fault_nth = -1; l.rt.fault_errno = 13; }   // open() fails: permission denied
         else if (kind == "short") { write_file(start, src); l.rt.fault_path = "start.h5"; l.rt.fault_kind = 3; l.rt.fault_nth = arg % 6; expect_refusal = false; }
         unlink((x.rc->workdir + "/cont.h5").c_str());
         LaunchResult r = run_launch(l);
